@@ -119,7 +119,7 @@ func (c *ingestor) ingestBlock(batch db.KeyValueWriter, blockNumber uint64) (int
 		return 0, err
 	}
 
-	err = c.validateCount(
+	alreadyMigrated, err := c.validateCount(
 		blockNumber,
 		txCount,
 		len(blockTransactions.Indexes.Transactions),
@@ -128,20 +128,27 @@ func (c *ingestor) ingestBlock(batch db.KeyValueWriter, blockNumber uint64) (int
 	if err != nil {
 		return 0, err
 	}
+	if alreadyMigrated {
+		// The combined entry is already in place and the old layout has nothing left for this
+		// block: writing the (empty) scan result would wipe the migrated transactions.
+		return txCount, nil
+	}
 
 	return txCount, core.BlockTransactionsBucket.Put(batch, blockNumber, &blockTransactions)
 }
 
+// validateCount checks the old-layout rows found for a block against its header. It reports
+// alreadyMigrated when nothing was found because the block already has its combined entry.
 func (c *ingestor) validateCount(
 	blockNumber uint64,
 	txCount int,
 	fetchedTxCount,
 	fetchedReceiptCount int,
-) error {
+) (alreadyMigrated bool, err error) {
 	if fetchedTxCount == 0 || fetchedReceiptCount == 0 {
 		has, err := core.BlockTransactionsBucket.Has(c.database, blockNumber)
 		if err != nil {
-			return err
+			return false, err
 		}
 		// Already migrated
 		if has {
@@ -149,23 +156,23 @@ func (c *ingestor) validateCount(
 				"skipping already migrated block",
 				zap.Uint64("blockNumber", blockNumber),
 			)
-			return nil
+			return true, nil
 		}
 		// Not migrated yet, no transactions found, while there are expected transactions
 		if txCount > 0 {
-			return errors.New("missing transactions and receipts")
+			return false, errors.New("missing transactions and receipts")
 		}
 	}
 
 	if fetchedTxCount != txCount {
-		return fmt.Errorf("invalid transactions: expected %d, got %d", txCount, fetchedTxCount)
+		return false, fmt.Errorf("invalid transactions: expected %d, got %d", txCount, fetchedTxCount)
 	}
 
 	if fetchedReceiptCount != txCount {
-		return fmt.Errorf("invalid receipts: expected %d, got %d", txCount, fetchedReceiptCount)
+		return false, fmt.Errorf("invalid receipts: expected %d, got %d", txCount, fetchedReceiptCount)
 	}
 
-	return nil
+	return false, nil
 }
 
 func extractValues(seq iter.Seq2[prefix.Entry[[]byte], error]) iter.Seq2[cbor.RawMessage, error] {
